@@ -157,4 +157,7 @@ def run(ctx):
     r1_drain(ctx)
     r2_inside_block_on(ctx)
     r3_wake_before_callback(ctx)
+    # (R3 cont.) ... and a wake-up that was reached is cleared on activation, so that the module's later timers are announced again (shared with C05.R4)
+    from .C05 import r4_wake_before_callback as _c05_r4
+    _c05_r4(ctx, rule='C06.R3')
     r4_budget_untouched(ctx)
